@@ -4,7 +4,10 @@
       (c12 (cfg http|grpc proto|json GZIP LIMIT) (sig LOGS TRACES METRICS) (dead SIGNAL…)
            (events (ev ID log|span|metric xMDL PAD SIZE)…)
            (script (logs R…) (traces R…) (metrics R…)) (end flush|drop))
-      R ::= ack | ackbody | (status N) | (grpc N) | (grpch N) | stall | stallh | rstb | rsta      PAD ::= N | (rnd N)
+      R ::= ack | ackbody | (status N) | (grpc N) | (grpch N) | stall | stallh | rsth | drph | rstb | rsta
+      PAD ::= N | (rnd N)
+      rsth (gRPC only): response HEADERS (200), then RST_STREAM before any trailers; drph: response HEADERS (200;
+      HTTP: content-length 64 and 10 bytes of body), then the connection is dropped
       → `logs=[E…] traces=[E…] metrics=[E…] flush=true|dropped`   E ::= <ids joined by , | ?>:<resp>:<n|r>
   `(end drop)`: the emitter is dropped instead of flushed; each signal's worker still processes what is queued
   (batcher: a closed channel gets "a chance to emit any last batch"; client.rs:290-293 after the `fix:` waits for
@@ -39,6 +42,8 @@ def resp? : Sexp → Option Resp
   | .atom "ackbody" => some .ackBody
   | .atom "stall" => some .stall
   | .atom "stallh" => some .stallH
+  | .atom "rsth" => some .rstH
+  | .atom "drph" => some .drpH
   | .atom "rstb" => some .rstB
   | .atom "rsta" => some .rstA
   | .list [.atom "status", n] => n.nat?.bind fun k => if 200 ≤ k ∧ k ≤ 599 then some (.status k) else none
@@ -48,7 +53,8 @@ def resp? : Sexp → Option Resp
 
 def showResp : Resp → String
   | .ack => "ack" | .ackBody => "ackbody" | .status n => s!"status{n}" | .grpc n => s!"grpc{n}"
-  | .grpcH n => s!"grpch{n}" | .stall => "stall" | .stallH => "stallh" | .rstB => "rstb" | .rstA => "rsta"
+  | .grpcH n => s!"grpch{n}" | .stall => "stall" | .stallH => "stallh" | .rstH => "rsth"
+  | .drpH => "drph" | .rstB => "rstb" | .rstA => "rsta"
 
 def ev? : Sexp → Option CaseEv
   | .list [.atom "ev", id, k, mdl, pad, size] => do
@@ -99,23 +105,25 @@ def runC12 (line : String) : String :=
       some sl, some st, some sm =>
       if tr == .grpc && json then "bad-op"
       else if endMode != "flush" && endMode != "drop" then "bad-op"
-      else if tr == .http && (sl ++ st ++ sm).any (fun r => match r with | .grpc _ => true | .grpcH _ => true | .stallH => true | _ => false) then "bad-op"
+      else if tr == .http && (sl ++ st ++ sm).any (fun r => match r with | .grpc _ => true | .grpcH _ => true | .stallH => true | .rstH => true | _ => false) then "bad-op"
       else if hasDup (evs.map (·.ev.id)) then "bad-op"
       else
         let one (s : Signal) (configured : Bool) (script : List Resp) : String × Nat × Nat × Bool :=
           let mine := (evs.filter fun e => route l t m e.kind.shape == .signal s).map (·.ev)
           let isDead := dead.contains s
-          let net0 : Net := ⟨isDead, script, configured && !isDead, if configured && !isDead then 1 else 0, []⟩
+          let net0 : Net := ⟨isDead, script, configured && !isDead, if configured && !isDead then 1 else 0, [], false⟩
           let (ok, net) := runSignal tr limit mine net0
           let entries := net.log.reverse
           (" ".intercalate (entries.map showEntry), (Chan.ofEvents limit mine).requests.length,
-           (entries.filter fun e => !(e.resp.headArrives && interpret tr e.resp)).length, ok)
+           (entries.filter fun e => !(e.resp.headArrives && interpret tr e.resp)).length +
+             (entries.filter fun e => e.resp.leavesStale).length, ok)
         let (ls, ln, lf, lok) := one .logs l sl
         let (ts, tn, tf, tok) := one .traces t st
         let (ms, mn, mf, mok) := one .metrics m sm
+        let broken := (sl ++ st ++ sm).any fun r => match r with | .rstH => true | .drpH => true | _ => false
         let sg :=
           if evs.isEmpty then "trivial"
-          else s!"tr={if tr == .http then "http" else "grpc"},json={json},reqs={min ln 6}/{min tn 6}/{min mn 6},fails={min (lf + tf + mf) 12},dead={dead.length},delivered={lok && tok && mok}"
+          else s!"{if broken then "broken-body," else ""}tr={if tr == .http then "http" else "grpc"},json={json},reqs={min ln 6}/{min tn 6}/{min mn 6},fails={min (lf + tf + mf) 12},dead={dead.length},delivered={lok && tok && mok}"
         s!"logs=[{ls}] traces=[{ts}] metrics=[{ms}] flush={if endMode == "drop" then "dropped" else "true"}\t{if sg == "trivial" then sg else sg ++ ",end=" ++ endMode}"
     | _, _, _, _, _, _, _, _, _, _, _, _ => "bad-op"
   | _ => "bad-op"
